@@ -55,9 +55,19 @@ def replayer(extra, path):
 
 
 def _lengths(ctx):
+    """(length, alignments) pairs.  quick: 0..130 and the 255-257 / 1023-1025 / 4095-4096
+    neighbourhoods at all 8 alignments; thorough: every length 0..4096 - all 8 alignments up to
+    520 and around 1024 / 2048 / 4096, two alignments (varying with the length) elsewhere."""
+    all8 = list(range(8))
     if ctx.quick:
-        return list(range(0, 131)) + [255, 256, 257, 1023, 1024, 1025, 4095, 4096]
-    return list(range(0, 4097))
+        return [(n, all8) for n in list(range(0, 131)) + [255, 256, 257, 1023, 1024, 1025, 4095, 4096]]
+    out = []
+    for n in range(0, 4097):
+        if n <= 520 or min(abs(n - c) for c in (1024, 2048, 4096)) <= 9:
+            out.append((n, all8))
+        else:
+            out.append((n, [n % 8, (3 * n + 1) % 8]))
+    return out
 
 
 def record_batch(job):
@@ -67,8 +77,8 @@ def record_batch(job):
     cfn, pyfn = cmod.websocket_mask, ws_mask.python_mask()
     structured = [b"\x00\x00\x00\x00", b"\xff\xff\xff\xff", b"\x01\x02\x03\x04", b"\x80\x00\x00\x7f", b"\x00\x00\x00\x01"]
     ev = []
-    for n in lens:
-        for align in range(8):
+    for n, aligns in lens:
+        for align in aligns:
             mask = rng.choice(structured) if rng.random() < 0.3 else bytes(rng.randrange(256) for _ in range(4))
             kind = rng.random()
             if kind < 0.2:
@@ -117,7 +127,7 @@ def run(ctx):
         t0 = time.time()
         # 3. code -> spec: recorded vectors validated by TLC
         lens = _lengths(ctx)
-        per = ctx.pick(6, 8)
+        per = ctx.pick(6, 12)
         jobs = [(i + 1, ctx.seed * 7919 + i, lens[k:k + per]) for i, k in enumerate(range(0, len(lens), per))]
         traces = framework.pool_map(record_batch, jobs)
         nvec = sum(len(t["ev"]) for t in traces)
@@ -129,11 +139,11 @@ def run(ctx):
         ctx.note("alignments", aligns)
         ctx.cov["evaluations"] += nvec - len(traces)
         ctx.cov["trusted_base"] += ["gcc -O2 build of speedups.c loaded through importlib",
-                                    "memoryview slices of bytes objects as aligned payload views"]
+                                    "ctypes arrays mapped onto a bytearray as aligned payload views"]
         ctx.cov["rule"] = ("MC: masks over the MaskBytes alphabet x lengths 0..24 x patterns x {32,64}-bit x {little,big} endian; "
                            "S2C: every TLC-enumerated (mask, payload) x 8 alignments x {compiled, python}; "
-                           "C2S: %d recorded vectors (lengths %d..%d x 8 alignments + wrong-length masks) validated by TLC; "
-                           "distinct = distinct (mask, payload) inputs / vector batches" % (nvec, lens[0], lens[-1]))
+                           "C2S: %d recorded vectors (lengths %d..%d, alignments 0..7 + wrong-length masks) validated by TLC; "
+                           "distinct = distinct (mask, payload) inputs / vector batches" % (nvec, lens[0][0], lens[-1][0]))
     finally:
         ws_mask.cleanup()
 
